@@ -31,6 +31,16 @@ theorem splitGT_map_unphase (s : List Char) : splitGT (s.map unphase) = splitGT 
       · subst hc; simp [unphase]
       · simp [unphase, hc]
 
+theorem stripLeadSep_map_unphase (s : List Char) : stripLeadSep (s.map unphase) = (stripLeadSep s).map unphase := by
+  cases s with
+  | nil => rfl
+  | cons c r =>
+    by_cases hc : c = '|'
+    · subst hc; simp [stripLeadSep, unphase]
+    · by_cases hc' : c = '/'
+      · subst hc'; simp [stripLeadSep, unphase]
+      · simp [stripLeadSep, unphase, hc, hc']
+
 theorem map_unphase_eq_dot (s : List Char) : s.map unphase = ['.'] ↔ s = ['.'] := by
   match s with
   | [] => simp
@@ -107,12 +117,44 @@ theorem isDigits_toDigits (n : Nat) : isDigits (Nat.toDigits 10 n) = true := by
   simp only [hne, Bool.not_false, Bool.true_and, List.all_eq_true]
   exact fun c hc => Nat.isDigit_of_mem_toDigits (by decide) (by decide) hc
 
-theorem parseAllele_gtAlleleStr (a : Option Nat) : parseAllele (gtAlleleStr a) = some a := by
+theorem parseAlleleIndex_digits (l : List Char) (hd : isDigits l = true) :
+    parseAlleleIndex l = if digitsToNat l < 2 ^ 64 then some (digitsToNat l) else none := by
+  unfold parseAlleleIndex
+  split
+  · rename_i r
+    exfalso; revert hd; simp [isDigits]
+  · simp [hd]
+
+theorem parseAlleleIndex_plus (l : List Char) :
+    parseAlleleIndex ('+' :: l) = if isDigits l ∧ digitsToNat l < 2 ^ 64 then some (digitsToNat l) else none := rfl
+
+theorem parseAlleleIndex_toDigits (n : Nat) :
+    parseAlleleIndex (Nat.toDigits 10 n) = if n < 2 ^ 64 then some n else none := by
+  rw [parseAlleleIndex_digits _ (isDigits_toDigits n), digitsToNat_toDigits]
+
+theorem parseAlleleIndex_plus_toDigits (n : Nat) :
+    parseAlleleIndex ('+' :: Nat.toDigits 10 n) = if n < 2 ^ 64 then some n else none := by
+  rw [parseAlleleIndex_plus, isDigits_toDigits, digitsToNat_toDigits]
+  simp
+
+theorem parseAllele_toDigits (n : Nat) (h : n < 2 ^ 64) : parseAllele (Nat.toDigits 10 n) = some (some n) := by
+  simp [parseAllele, toDigits_ne_dot n, parseAlleleIndex_toDigits, h]
+
+theorem parseAllele_plus_toDigits (n : Nat) (h : n < 2 ^ 64) :
+    parseAllele ('+' :: Nat.toDigits 10 n) = some (some n) := by
+  have : ('+' :: Nat.toDigits 10 n) ≠ ['.'] := by simp
+  simp [parseAllele, this, parseAlleleIndex_plus_toDigits, h]
+
+/-- an index that does not fit 64 bits is no allele -/
+theorem parseAllele_toDigits_big (n : Nat) (h : 2 ^ 64 ≤ n) : parseAllele (Nat.toDigits 10 n) = none := by
+  have : ¬ n < 2 ^ 64 := by omega
+  simp [parseAllele, toDigits_ne_dot n, parseAlleleIndex_toDigits, this]
+
+theorem parseAllele_gtAlleleStr (a : Option Nat) (h : ∀ n, a = some n → n < 2 ^ 64) :
+    parseAllele (gtAlleleStr a) = some a := by
   cases a with
   | none => simp [gtAlleleStr, parseAllele]
-  | some n =>
-    simp only [gtAlleleStr, parseAllele, toDigits_ne_dot n, isDigits_toDigits n, digitsToNat_toDigits n]
-    simp
+  | some n => exact parseAllele_toDigits n (h n rfl)
 
 theorem splitGT_gtStr (al : List (Option Nat)) (seps : List Char) (hne : al ≠ [])
     (hs : ∀ c ∈ seps, c = '/' ∨ c = '|') : splitGT (gtStr al seps) = al.map gtAlleleStr := by
@@ -133,10 +175,57 @@ theorem splitGT_gtStr (al : List (Option Nat)) (seps : List Char) (hne : al ≠ 
           ih seps (by simp) (fun c hc => hs c (by simp [hc]))]
         simp
 
-theorem mapM_parseAllele (al : List (Option Nat)) : (al.map gtAlleleStr).mapM parseAllele = some al := by
+theorem mapM_parseAllele (al : List (Option Nat)) (hfit : ∀ n, some n ∈ al → n < 2 ^ 64) :
+    (al.map gtAlleleStr).mapM parseAllele = some al := by
   induction al with
   | nil => simp
-  | cons a rest ih => simp [List.mapM_cons, parseAllele_gtAlleleStr, ih]
+  | cons a rest ih =>
+    have h1 := parseAllele_gtAlleleStr a (fun n hn => hfit n (by simp [hn]))
+    have h2 := ih (fun n hn => hfit n (by simp [hn]))
+    simp [List.mapM_cons, h1, h2]
+
+theorem mapM_parseAllele_big (al : List (Option Nat)) (hbig : ∃ n, some n ∈ al ∧ 2 ^ 64 ≤ n) :
+    (al.map gtAlleleStr).mapM parseAllele = none := by
+  induction al with
+  | nil => obtain ⟨n, hn, _⟩ := hbig; simp at hn
+  | cons a rest ih =>
+    obtain ⟨n, hn, hb⟩ := hbig
+    simp only [List.mem_cons] at hn
+    rw [List.map_cons, List.mapM_cons]
+    rcases hn with hn | hn
+    · subst hn
+      simp [gtAlleleStr, parseAllele_toDigits_big n hb]
+    · rw [ih ⟨n, hn, hb⟩]
+      cases parseAllele (gtAlleleStr a) <;> simp
+
+theorem stripLeadSep_of_head (s : List Char) (h : ∀ d, s.head? = some d → d ≠ '/' ∧ d ≠ '|') :
+    stripLeadSep s = s := by
+  cases s with
+  | nil => rfl
+  | cons c r =>
+    have := h c rfl
+    simp [stripLeadSep, this.1, this.2]
+
+theorem stripLeadSep_cons_sep (c : Char) (hc : c = '/' ∨ c = '|') (s : List Char) : stripLeadSep (c :: s) = s := by
+  simp [stripLeadSep, hc]
+
+theorem gtStr_head (al : List (Option Nat)) (seps : List Char) :
+    ∀ d, (gtStr al seps).head? = some d → d ≠ '/' ∧ d ≠ '|' := by
+  intro d hd
+  have key : ∀ (a : Option Nat) (t : List Char), (gtAlleleStr a ++ t).head? = some d → d ≠ '/' ∧ d ≠ '|' := by
+    intro a t h
+    cases hg : gtAlleleStr a with
+    | nil => exact absurd hg (gtAlleleStr_ne_nil a)
+    | cons x xs =>
+      rw [hg] at h
+      simp at h
+      subst h
+      exact gtAlleleStr_no_sep a x (by rw [hg]; simp)
+  match al, seps with
+  | [], _ => simp [gtStr] at hd
+  | [a], _ => exact key a [] (by simpa only [gtStr, List.append_nil] using hd)
+  | a :: b :: rest, [] => simp only [gtStr] at hd; exact key a _ hd
+  | a :: b :: rest, s :: seps => simp only [gtStr] at hd; exact key a _ hd
 
 theorem gtStr_ne_dot (al : List (Option Nat)) (seps : List Char) (hne : al ≠ []) (hdot : al ≠ [none]) :
     gtStr al seps ≠ ['.'] := by
@@ -158,11 +247,38 @@ theorem gtStr_ne_dot (al : List (Option Nat)) (seps : List Char) (hne : al ≠ [
     omega
 
 theorem parseGT_gtStr (al : List (Option Nat)) (seps : List Char) (hne : al ≠ [])
-    (hs : ∀ c ∈ seps, c = '/' ∨ c = '|') (hdot : al ≠ [none]) :
+    (hs : ∀ c ∈ seps, c = '/' ∨ c = '|') (hdot : al ≠ [none]) (hfit : ∀ n, some n ∈ al → n < 2 ^ 64) :
     parseGT (gtStr al seps) = some (some al) := by
   unfold parseGT
-  rw [if_neg (gtStr_ne_dot al seps hne hdot), splitGT_gtStr al seps hne hs, mapM_parseAllele]
+  rw [if_neg (gtStr_ne_dot al seps hne hdot), stripLeadSep_of_head _ (gtStr_head al seps),
+    splitGT_gtStr al seps hne hs, mapM_parseAllele al hfit]
   rfl
+
+theorem parseGT_gtStr_big (al : List (Option Nat)) (seps : List Char) (hne : al ≠ [])
+    (hs : ∀ c ∈ seps, c = '/' ∨ c = '|') (hbig : ∃ n, some n ∈ al ∧ 2 ^ 64 ≤ n) :
+    parseGT (gtStr al seps) = none := by
+  have hdot : al ≠ [none] := by
+    rintro rfl
+    obtain ⟨n, hn, _⟩ := hbig
+    simp at hn
+  unfold parseGT
+  rw [if_neg (gtStr_ne_dot al seps hne hdot), stripLeadSep_of_head _ (gtStr_head al seps),
+    splitGT_gtStr al seps hne hs, mapM_parseAllele_big al hbig]
+  rfl
+
+/-- a leading separator: same classification (the lone `.` becomes the one-allele list `[none]`, which is missing as well) -/
+theorem parseGT_cons_sep (c : Char) (hc : c = '/' ∨ c = '|') (s : List Char)
+    (hs : ∀ d, s.head? = some d → d ≠ '/' ∧ d ≠ '|') :
+    (parseGT (c :: s)).map classifyField = (parseGT s).map classifyField := by
+  have hcs : c :: s ≠ ['.'] := by
+    intro h
+    injection h with h1 _
+    rcases hc with hc | hc <;> (rw [hc] at h1; revert h1; decide)
+  unfold parseGT
+  rw [if_neg hcs, stripLeadSep_cons_sep c hc]
+  by_cases hdot : s = ['.']
+  · subst hdot; rfl
+  · rw [if_neg hdot, stripLeadSep_of_head s hs]
 
 
 /-! ## the column loop -/
@@ -805,18 +921,121 @@ theorem parseSamplesArg_intercalate (items : List (List Char)) (hne : items ≠ 
     parseSamplesArg (List.intercalate [','] items) = items.map parseSampleArg := by
   rw [parseSamplesArg, splitAll_intercalate ',' items hne h]
 
+/-! `str::lines`: the text is a sequence of lines each ended by the line feed, then a last piece without one -/
+
+theorem stripCr_of_not_cr (l : List Char) (h : l.getLast? ≠ some '\r') : stripCr l = l := by
+  simp [stripCr, h]
+
+theorem stripCr_append_cr (l : List Char) : stripCr (l ++ ['\r']) = l := by
+  simp [stripCr]
+
+theorem map_eq_self_of_mem {α} (f : α → α) (l : List α) (h : ∀ x ∈ l, f x = x) : l.map f = l :=
+  (List.map_congr_left h).trans (List.map_id _)
+
+theorem splitAll_lines (c : Char) (ended : List (List Char)) (last : List Char)
+    (h : ∀ t ∈ ended, c ∉ t) (hl : c ∉ last) :
+    splitAll c ((ended.map (· ++ [c])).flatten ++ last) = ended ++ [last] := by
+  induction ended with
+  | nil => simpa using splitAll_token c last hl
+  | cons t rest ih =>
+    have := ih (fun x hx => h x (by simp [hx]))
+    simp only [List.map_cons, List.flatten_cons, List.append_assoc, List.cons_append, List.nil_append]
+    rw [splitAll_token_sep c t _ (h t (by simp)), this]
+
+/-- the general form: every ended line loses one carriage return, the unended rest is a line unless it is empty -/
+theorem parseSamplesFile_lines (ended : List (List Char)) (last : List Char)
+    (h : ∀ t ∈ ended, '\n' ∉ t) (hl : '\n' ∉ last) :
+    parseSamplesFile ((ended.map (· ++ ['\n'])).flatten ++ last) =
+      (ended.map stripCr ++ (if last = [] then [] else [last])).map parseSampleLine := by
+  unfold parseSamplesFile
+  rw [splitAll_lines '\n' ended last h hl]
+  cases last with
+  | nil => simp
+  | cons x xs => simp
+
+theorem intercalate_snoc {α} (sep : List α) (init : List (List α)) (last : List α) :
+    List.intercalate sep (init ++ [last]) = (init.map (· ++ sep)).flatten ++ last := by
+  induction init with
+  | nil => simp [List.intercalate]
+  | cons t rest ih =>
+    cases rest with
+    | nil => simp [List.intercalate]
+    | cons u rest =>
+      simp only [List.intercalate, List.cons_append, List.intersperse_cons_cons, List.flatten_cons,
+        List.map_cons, List.append_assoc] at ih ⊢
+      rw [ih]
+
+theorem intercalate_append_sep {α} (sep : List α) (items : List (List α)) (hne : items ≠ []) :
+    List.intercalate sep items ++ sep = (items.map (· ++ sep)).flatten := by
+  rw [← List.dropLast_concat_getLast hne, intercalate_snoc]
+  simp
+
 theorem parseSamplesFile_intercalate_nl (items : List (List Char)) (hne : items ≠ [])
-    (h : ∀ t ∈ items, '\n' ∉ t) :
+    (h : ∀ t ∈ items, '\n' ∉ t) (hcr : ∀ t ∈ items, t.getLast? ≠ some '\r') :
     parseSamplesFile (List.intercalate ['\n'] items ++ ['\n']) = items.map parseSampleLine := by
-  simp [parseSamplesFile, splitAll_intercalate_nl '\n' items hne h]
+  have := parseSamplesFile_lines items [] h (by simp)
+  rw [intercalate_append_sep _ items hne]
+  simp only [List.append_nil, if_true] at this
+  rw [this]
+  congr 1
+  exact map_eq_self_of_mem _ _ (fun t ht => stripCr_of_not_cr t (hcr t ht))
 
 theorem parseSamplesFile_intercalate (items : List (List Char)) (hne : items ≠ [])
-    (h : ∀ t ∈ items, '\n' ∉ t) (hlast : ∀ t ∈ items, t ≠ []) :
+    (h : ∀ t ∈ items, '\n' ∉ t) (hlast : ∀ t ∈ items, t ≠ [])
+    (hcr : ∀ t ∈ items.dropLast, t.getLast? ≠ some '\r') :
     parseSamplesFile (List.intercalate ['\n'] items) = items.map parseSampleLine := by
-  have : items.getLast? ≠ some [] := by
-    intro hl
-    exact hlast [] (List.mem_of_getLast? hl) rfl
-  simp [parseSamplesFile, splitAll_intercalate '\n' items hne h, this]
+  have hsplit := List.dropLast_concat_getLast hne
+  have hl : items.getLast hne ∈ items := List.getLast_mem hne
+  have hd : ∀ t ∈ items.dropLast, t ∈ items := fun t ht => List.dropLast_subset _ ht
+  have := parseSamplesFile_lines items.dropLast (items.getLast hne) (fun t ht => h t (hd t ht)) (h _ hl)
+  rw [if_neg (hlast _ hl)] at this
+  conv => lhs; rw [← hsplit, intercalate_snoc]
+  rw [this]
+  conv => rhs; rw [← hsplit]
+  congr 2
+  exact map_eq_self_of_mem _ _ (fun t ht => stripCr_of_not_cr t (hcr t ht))
+
+/-- Windows line endings, the last line ended as well: nothing is asked of the items beyond being free of line feeds -/
+theorem parseSamplesFile_intercalate_crnl (items : List (List Char)) (hne : items ≠ [])
+    (h : ∀ t ∈ items, '\n' ∉ t) :
+    parseSamplesFile (List.intercalate ['\r', '\n'] items ++ ['\r', '\n']) = items.map parseSampleLine := by
+  have hnl : ∀ t ∈ items.map (· ++ ['\r']), '\n' ∉ t := by
+    intro t ht
+    obtain ⟨u, hu, rfl⟩ := List.mem_map.1 ht
+    have := h u hu
+    simp [this]
+  have := parseSamplesFile_lines (items.map (· ++ ['\r'])) [] hnl (by simp)
+  rw [intercalate_append_sep _ items hne]
+  simp only [List.append_nil, if_true] at this
+  have e : (fun t : List Char => t ++ ['\r', '\n']) = (fun t => t ++ ['\n']) ∘ (fun t => t ++ ['\r']) := by
+    funext t; simp
+  rw [e, ← List.map_map, this]
+  congr 1
+  rw [List.map_map]
+  exact map_eq_self_of_mem _ _ (fun t _ => stripCr_append_cr t)
+
+/-- Windows line endings, the last line not ended -/
+theorem parseSamplesFile_intercalate_cr (items : List (List Char)) (hne : items ≠ [])
+    (h : ∀ t ∈ items, '\n' ∉ t) (hlast : ∀ t ∈ items, t ≠ []) :
+    parseSamplesFile (List.intercalate ['\r', '\n'] items) = items.map parseSampleLine := by
+  have hsplit := List.dropLast_concat_getLast hne
+  have hl : items.getLast hne ∈ items := List.getLast_mem hne
+  have hd : ∀ t ∈ items.dropLast, t ∈ items := fun t ht => List.dropLast_subset _ ht
+  have hnl : ∀ t ∈ items.dropLast.map (· ++ ['\r']), '\n' ∉ t := by
+    intro t ht
+    obtain ⟨u, hu, rfl⟩ := List.mem_map.1 ht
+    have := h u (hd u hu)
+    simp [this]
+  have := parseSamplesFile_lines (items.dropLast.map (· ++ ['\r'])) (items.getLast hne) hnl (h _ hl)
+  rw [if_neg (hlast _ hl)] at this
+  have e : (fun t : List Char => t ++ ['\r', '\n']) = (fun t => t ++ ['\n']) ∘ (fun t => t ++ ['\r']) := by
+    funext t; simp
+  conv => lhs; rw [← hsplit, intercalate_snoc, e, ← List.map_map]
+  rw [this]
+  conv => rhs; rw [← hsplit]
+  congr 2
+  rw [List.map_map]
+  exact map_eq_self_of_mem _ _ (fun t _ => stripCr_append_cr t)
 
 /-! ## builder -/
 
